@@ -421,3 +421,25 @@ s("C19", "new-reference-before-judging", MD, "            if drift_level > drift
 s("C19", "columns-count-only", MD, "        if len(labeled_columns) != len(reference_columns) or set(\n            labeled_columns\n        ) != set(reference_columns):", "        if len(labeled_columns) != len(reference_columns):", "GRD")
 b(["C19"], "warning-flip", MD, "        if warning_level > warning_threshold:", "        if warning_threshold < warning_level:")
 b(["C19"], "waiting-truthy", MD, "        if self.waiting_for_oracle != True:", "        if not (self.waiting_for_oracle == True):")
+
+# ---------------------------------------------------------------- C20
+FM = IN + "feature_manipulation.py"
+NZ = IN + "noise.py"
+s("C20", "shift-whole-column", FM, "        ret[from_index:to_index, col] = np.add(\n            ret[from_index:to_index, col], self._delta\n        )", "        ret[:, col] = np.add(\n            ret[:, col], self._delta\n        )", "FRAME")
+s("C20", "join-no-window-filter", LM, "        class_idx = class_idx[(class_idx < to_index) & (class_idx >= from_index)]\n        ret[class_idx, target_col] = new_class", "        ret[class_idx, target_col] = new_class", "FRAME")
+s("C20", "swap-through-data", LM, "        ret[class_2_idx, target_col] = class_1\n", "        data[class_2_idx, target_col] = class_1\n", ["FRM", "ROLE", "FRAME"])
+s("C20", "swap-second-index-late", LM, "        class_2_idx = np.where(ret[:, target_col] == class_2)[0]\n        class_2_idx = class_2_idx[\n            (class_2_idx < to_index) & (class_2_idx >= from_index)\n        ]\n        ret[class_1_idx, target_col] = class_2\n        ret[class_2_idx, target_col] = class_1", "        ret[class_1_idx, target_col] = class_2\n        class_2_idx = np.where(ret[:, target_col] == class_2)[0]\n        class_2_idx = class_2_idx[\n            (class_2_idx < to_index) & (class_2_idx >= from_index)\n        ]\n        ret[class_2_idx, target_col] = class_1", "FRM")
+s("C20", "no-postprocess", FM, "        # swap columns\n        ret[from_index:to_index, [col_1, col_2]] = ret[\n            from_index:to_index, [col_2, col_1]\n        ]\n\n        # handle type and return\n        ret = self._postprocess(ret)\n        return ret", "        # swap columns\n        ret[from_index:to_index, [col_1, col_2]] = ret[\n            from_index:to_index, [col_2, col_1]\n        ]\n\n        return ret", "MC")
+s("C20", "shift-sign", FM, "self._delta = (alpha + self._section_mean) * shift_factor", "self._delta = (alpha - self._section_mean) * shift_factor", "FRM")
+s("C20", "swap-same-order", FM, "        ret[from_index:to_index, [col_1, col_2]] = ret[\n            from_index:to_index, [col_2, col_1]\n        ]", "        ret[from_index:to_index, [col_1, col_2]] = ret[\n            from_index:to_index, [col_1, col_2]\n        ]", "FRM")
+s("C20", "walk-zeros", NZ, "        w = np.ones(steps) * x0", "        w = np.zeros(steps)", "FRM")
+s("C20", "window-inclusive", LM, "        class_idx = class_idx[(class_idx < to_index) & (class_idx >= from_index)]", "        class_idx = class_idx[(class_idx <= to_index) & (class_idx >= from_index)]", "FRAME")
+s("C20", "noise-other-column", NZ, "        ret[from_index:to_index, col] = ret[\n            from_index:to_index, col\n        ] + BrownianNoiseInjector", "        ret[from_index:to_index, col] = ret[\n            from_index:to_index, 0\n        ] + BrownianNoiseInjector", "FRM")
+s("C20", "probability-pool-unfiltered", LM, "            sample_idxs_grouped.extend(cls_idx)", "            sample_idxs_grouped.extend(cls_idx if cls_idx.shape[0] else np.where(ret[:, target_col] == cls)[0])", "FRAME")
+s("C20", "postprocess-always-df", INJ, "        elif self._columns is None and isinstance(data, pd.DataFrame):\n            return data.to_numpy()", "        elif self._columns is None and isinstance(data, pd.DataFrame):\n            return data", "TAB")
+s("C20", "shift-mean-whole-column", FM, "        self._section_mean = np.mean(ret[from_index:to_index, col])", "        self._section_mean = np.mean(ret[:, col])", "FRM")
+s("C20", "walk-step-size", NZ, "            w[i] = w[i - 1] + (yi / np.sqrt(steps))", "            w[i] = w[i - 1] + (yi / steps)", "FRM")
+s("C20", "cover-keeps-column", FM, "        ret = ret.drop(columns=[col]).reset_index(drop=True)", "        ret = ret.reset_index(drop=True)", "FRM")
+s("C20", "columns-not-reset", INJ, "        if isinstance(data, np.ndarray):\n            self._columns = None\n            column_idxs = columns", "        if isinstance(data, np.ndarray):\n            column_idxs = columns", "LIVE")
+b(["C20"], "shift-plain-add", FM, "        ret[from_index:to_index, col] = np.add(\n            ret[from_index:to_index, col], self._delta\n        )", "        ret[from_index:to_index, col] = ret[from_index:to_index, col] + self._delta")
+b(["C20"], "window-mask-flip", LM, "        class_idx = class_idx[(class_idx < to_index) & (class_idx >= from_index)]", "        class_idx = class_idx[(class_idx >= from_index) & (to_index > class_idx)]")
